@@ -104,7 +104,9 @@ func registeredAuthorizers(ls []world.Leaf, w *world.World, names []string) map[
 // mintMonitor (C18).
 func mintMonitor(w *world.World, authNames []string) chainsim.Monitor {
 	minted := map[*chainsim.SNode]map[int64]bool{} // nonces already minted along the path
+	pg := &purger{}
 	return func(s *chainsim.Step, v func(key, what string)) {
+		purgeOld(pg, minted, s.Pre)
 		h := minted[s.Pre]
 		defer func() {
 			if s.Err == nil {
